@@ -126,6 +126,28 @@ def summaries(ct: Container):
     return out
 
 
+def _decoding_methods(ct):
+    """names of Tdf methods that decode a block: they call some `<Class>._build(..)` themselves or through one same-class call"""
+    cached = getattr(ct, "_decoding_methods_cache", None)
+    if cached is not None:
+        return cached
+    direct = set()
+    calls = {}
+    for f in ct.tdf.all_funcs():
+        for c in walk_no_nested(f.node):
+            if isinstance(c, ast.Call) and isinstance(c.func, ast.Attribute):
+                if c.func.attr == "_build" and not (isinstance(c.func.value, ast.Name) and c.func.value.id == "TdfEntry"):
+                    direct.add(f.name)
+                if isinstance(c.func.value, ast.Name) and c.func.value.id == "self":
+                    calls.setdefault(f.name, set()).add(c.func.attr)
+    out = set(direct)
+    for name, cs in calls.items():
+        if cs & direct and name not in ("add_block", "remove_block", "replace_block"):
+            out.add(name)
+    ct._decoding_methods_cache = out
+    return out
+
+
 def classify(ct, ff: FuncFacts, summ, late):
     """node id -> ('E'/'R' flags, reason, stmt)"""
     taint = tainted_names(ff)
@@ -142,6 +164,11 @@ def classify(ct, ff: FuncFacts, summ, late):
                 eff.setdefault(e.node.id, e)
             if summ[e.meth].may_reject and escaping(ff, e.node):
                 rej.setdefault(e.node.id, (e, f"call to {e.meth}() which can refuse the request"))
+        elif e.kind == "self_call" and e.meth in _decoding_methods(ct):
+            # decoding a stored block runs the block class's _build, which refuses what it does not implement (formats, sizes):
+            # a mutator that reads a block back can be made to raise by data the serialiser accepted
+            if escaping(ff, e.node):
+                rej.setdefault(e.node.id, (e, f"call to {e.meth}(), which decodes a block and can raise on data the serialiser accepted"))
         elif e.kind == "raise":
             if escaping(ff, e.node):
                 rej.setdefault(e.node.id, (e, f"raise {e.exc}"))
@@ -287,26 +314,9 @@ def run(prog, rep):
     rep.attempt(mode_lifecycle, ct, rep)
     n_early, n_funcs = path_rules(ct, cd, rep)
     rep.attempt(object_state_before_refusal, ct, rep)
-    # the read-only refusal must come before the in-memory table changes (the handle refuses the write, but only after that)
-    from .c08 import body_guards, eval_guard, wrapper_guards
-    wg = wrapper_guards(ct)
-    for name in ("add_block", "remove_block"):
-        ff = ct.facts(name)
-        decs = [d for d in ff.f.decorators if d in wg]
-        # guards that dominate every table/file effect
-        effs = ff.ev(*M.FILE_EFFECTS, *TABLE_EFFECTS)
-        conds = [wg[d][0] for d in decs if wg[d][0] is not None]
-        for st in walk_no_nested(ff.f.node):
-            if isinstance(st, ast.If) and st.body and isinstance(st.body[-1], ast.Raise) and not st.orelse:
-                names = {n.attr for n in ast.walk(st.test) if isinstance(n, ast.Attribute) and isinstance(n.value, ast.Name) and n.value.id == "self"}
-                if names and names <= {"_mode", "_inside_context"} and effs and all(ff.cfg.dominates(ff.cfg.node_of(st), e.node) for e in effs):
-                    conds.append(st.test)
-        ro_state = (True, "rb", "ro", False)
-        if any(eval_guard(c, ro_state) for c in conds):
-            rep.ok("early-rejections", f"Tdf.{name}: inside a read-only context the call is refused before any table or file effect", nontrivial=True)
-        else:
-            rep.fail("early-rejections", mod, f"Tdf.{name}", ff.f.node, "inside a plain (read-only) context nothing refuses the call before the in-memory table is changed: the handle rejects the write only afterwards, leaving a phantom entry",
-                     construct=f"Tdf.{name} read-only refusal")
+    # the refusal of a session that cannot write must come before the in-memory table changes (the handle refuses the write, but only after that)
+    from .c08 import table_effects_need_writable
+    rep.attempt(table_effects_need_writable, ct, rep, "early-rejections")
     rep.floor("early-rejections", n_early, 5)
     rep.floor("validate-before-effect/mutators", n_funcs, 8)
     rep.extra["late_reject_writers"] = sorted(late_reject_writers(cd))
